@@ -495,6 +495,8 @@ func (w *walker) inlineTarget(s *wstate, call *ssa.Call) (*ssa.Function, *Term) 
 	} else {
 		switch cc.Value.(type) {
 		case *ssa.Parameter, *ssa.FreeVar, *ssa.Extract, *ssa.Lookup:
+		case *ssa.UnOp:
+			// a function value read from a variable (a local helper closure the body captured: `fail := func…`)
 		default:
 			return nil, nil
 		}
